@@ -165,6 +165,7 @@ IsHexDigitChar(c) == c \in 48..57 \/ c \in 97..102 \/ c \in 65..70
    "octal" (3-digit octal below 256 else hex), "hex", "HEX" (upper-case digits)         *)
 EscOf(c, esc) ==
   CASE esc = "hex" -> HexEsc(c, FALSE)
+    [] esc = "octshort" -> IF c < 64 THEN OctShort(c) ELSE IF c < 256 THEN Oct3(c) ELSE HexEsc(c, FALSE)
     [] esc = "HEX" -> HexEsc(c, TRUE)
     [] esc = "octal" -> IF c < 256 THEN Oct3(c) ELSE HexEsc(c, FALSE)
     [] OTHER -> IF c \in DOMAIN Named THEN Named[c] ELSE IF c < 128 THEN Oct3(c) ELSE HexEsc(c, FALSE)
@@ -191,22 +192,33 @@ CharS(c, ctx, st, afterHex) ==
   ELSE [s |-> EscOf(c, st.esc), hex |-> IsHexForm(c, st.esc)]
 \* spelling of character i of cs when the next character is a raw hex-digit letter of a case-insensitive context
 NextIsRawHexLetter(cs, i, ctx) == CI(ctx) /\ i < Len(cs) /\ IsLetter(cs[i + 1]) /\ IsHexDigitChar(cs[i + 1])
+IsOctDigitChar(c) == c \in 48..55
+\* with the "octshort" style a short escape must not swallow a following raw octal digit: \d d and \dd d are only
+\* safe when they cannot be read as a longer escape, i.e. the two-digit form with a first digit 4..7
+ShortOctalSafe(c, nextIsOctDigit) == ~nextIsOctDigit \/ (c >= 32 /\ c < 64)
 CharSBefore(c, ctx, st, afterHex, nextRawHex) ==
   LET r == CharS(c, ctx, st, afterHex) IN
   IF nextRawHex /\ r.hex THEN (IF c < 256 THEN [s |-> Oct3(c), hex |-> FALSE] ELSE [s |-> r.s \o "\" \"", hex |-> FALSE])   \* close and reopen the literal
   ELSE r
 
 RECURSIVE CharsS(_, _, _, _, _)
+\* will character j of cs be written raw as an octal digit?
+RawOctNext(cs, i, ctx, st) == i < Len(cs) /\ IsOctDigitChar(cs[i + 1]) /\ st.raw
 CharsS(cs, i, ctx, st, afterHex) ==
   IF i > Len(cs) THEN ""
-  ELSE LET r == CharSBefore(cs[i], ctx, st, afterHex, NextIsRawHexLetter(cs, i, ctx)) IN r.s \o CharsS(cs, i + 1, ctx, st, r.hex)
+  ELSE LET r0 == CharSBefore(cs[i], ctx, st, afterHex, NextIsRawHexLetter(cs, i, ctx))
+           \* a short octal escape in front of a raw octal digit: keep it only where it cannot be misread
+           r == IF st.esc = "octshort" /\ cs[i] < 64 /\ r0.s = OctShort(cs[i]) /\ ~ShortOctalSafe(cs[i], RawOctNext(cs, i, ctx, st))
+                THEN [s |-> Oct3(cs[i]), hex |-> FALSE] ELSE r0
+       IN r.s \o CharsS(cs, i + 1, ctx, st, r.hex)
 
 RECURSIVE ItemsS(_, _, _, _, _)
 \* ctx: "cls" or "cci".  The ends of a range are folded by the builder whatever their spelling, so they
 \* follow the style ("cls"); single characters of a case-insensitive class follow the rule for letters.
-ItemsS(items, i, st, afterHex, ctx) ==
+ItemsS(items, i, st0, afterHex, ctx) ==
   IF i > Len(items) THEN ""
   ELSE LET it == items[i]
+           st == IF st0.esc = "octshort" THEN [st0 EXCEPT !.esc = "octal"] ELSE st0   \* short octal escapes only in literals (see CharsS)
            nextRawHex == ctx = "cci" /\ i < Len(items) /\ ~items[i + 1].r /\ IsLetter(items[i + 1].lo) /\ IsHexDigitChar(items[i + 1].lo)
        IN IF it.r
           THEN LET a == CharS(it.lo, "cls", st, afterHex)
